@@ -17,7 +17,7 @@ from ..algebra import BExpr, GExpr, Poly, apply_fn, b_le0, b_ne0, diff, frac, se
 from ..astutil import U, assignments, calls, callee_name, const_str, own_walk, returns
 from ..kernelir import KInterp, PyVal, Unsupported
 from ..pathcond import parents, path_condition
-from ..phys import DC, DT, PT, bcol, check_equal, g, ncol, run_kernel, run_spec
+from ..phys import DC, DT, PT, bcol, check_equal, g, hook_summary, ncol, run_kernel, run_spec
 from ..source import AnalysisError
 
 RE_ = "pandapipes.pf.result_extraction"
@@ -300,15 +300,45 @@ def _result_key_tables(run):
     to a column of the component's result table for the same fluid class"""
     ix = run.index
     gb = ix.func(RE_ + ".get_basic_branch_results")
-    basic = set()
-    for n in ast.walk(gb.node):
-        if isinstance(n, ast.Dict):
-            basic |= {const_str(k) for k in n.keys if const_str(k)}
     ear = ix.func(RE_ + ".extract_all_results")
-    gaskeys = set()
-    for n in ast.walk(ear.node):
-        if isinstance(n, ast.Dict):
-            gaskeys |= {const_str(k) for k in n.keys if const_str(k)}
+    # producer keys from whole-function terms: keys of dictionary displays and of constant-key stores / updates, wherever the
+    # dictionaries are built (a literal, a helper, a loop over zip(names, values) ...)
+    from ..arrnf import ANF as _ANF, walk as _walk
+
+    def keys_of(fi, gas=None):
+        r_ = _ANF(ix, fi).run()
+        out = {}
+        for e_ in r_.events:
+            # path condition: under the gas test or not
+            g_ = None
+            for c_, p_ in e_.cond:
+                if any(x[0] == "attr" and x[2] == "is_gas" for x in _walk(c_)):
+                    from ..arrnf import norm_cond as _nc
+                    g_ = _nc(c_, p_)[1]
+            terms = []
+            if e_.kind == "store":
+                if len(e_.index) == 1 and e_.index[0][0] == "c" and isinstance(e_.index[0][1], str):
+                    out.setdefault(e_.index[0][1], g_)
+                terms = [e_.value]
+            elif e_.kind == "call":
+                terms = [e_.term]
+            elif e_.kind in ("return", "inlined-return"):
+                terms = [e_.value]
+            for t_ in terms:
+                for x in _walk(t_):
+                    if x[0] == "dict":
+                        for k_, _v in x[1]:
+                            if k_[0] == "c" and isinstance(k_[1], str):
+                                out.setdefault(k_[1], g_)
+                    elif x[0] == "call" and x[1] == ("x", "builtins.zip") and x[2] and x[2][0][0] in ("tuple", "list") \
+                            and x[2][0][1] and all(i_[0] == "c" and isinstance(i_[1], str) for i_ in x[2][0][1]):
+                        # d.update(zip(<names>, <values>)) / dict(zip(<names>, <values>))
+                        for i_ in x[2][0][1]:
+                            out.setdefault(i_[1], g_)
+        return out
+    basic = set(keys_of(gb))
+    ek = keys_of(ear)
+    gaskeys = {k_ for k_, g_ in ek.items() if g_ is True} | {k_ for k_ in ek if k_ not in basic}
     run.ob("producer-keys-found", len(basic) >= 15 and len(gaskeys) >= 10,
            "producer dictionaries found (%d basic, %d gas keys)" % (len(basic), len(gaskeys)), run.where(gb, gb.node))
     std = ix.func("pandapipes.component_models.component_toolbox.standard_branch_wo_internals_result_lookup")
@@ -329,19 +359,27 @@ def _result_key_tables(run):
         return out
 
     def table_cols(ci):
-        m = ix.lookup_method(ci, "get_result_table")
-        cols = {True: set(), False: set(), None: set()}
-        if m is None:
+        """{gas?: column names} of get_result_table, evaluated for both fluid classes (forward substitution: it does not matter
+        whether the lists are literals in the method, built by append / extend, or returned by a helper)"""
+        if ix.lookup_method(ci, "get_result_table") is None:
             return None
-        par = parents(m.node)
-        for n in ast.walk(m.node):
-            if isinstance(n, ast.List) and n.elts and all(const_str(e) is not None for e in n.elts):
-                pc = path_condition(m.node, n, par)
-                gas = None
-                for lit, pol in pc:
-                    if "is_gas" in lit:
-                        gas = pol
-                cols[gas] |= {e.value for e in n.elts}
+        cols = {True: set(), False: set(), None: set()}
+        for gas_ in (True, False):
+            try:
+                ki_, k_ = hook_summary(ix, ci, "get_result_table", {"fluid.is_gas": gas_})
+            except (AnalysisError, Exception) as ex:     # noqa
+                raise AnalysisError("unrecognised shape: get_result_table of %s: %s" % (ci.name, str(ex)[:120]))
+            out_ = k_.outputs[0] if k_.outputs else None
+            if isinstance(out_, PyVal) and isinstance(out_.v, (list, tuple)):
+                out_ = list(out_.v)
+            if not isinstance(out_, (list, tuple)):
+                raise AnalysisError("unrecognised shape: get_result_table of %s does not return a list of columns" % ci.name)
+            for it_ in out_:
+                v_ = it_.v if isinstance(it_, PyVal) else it_
+                if isinstance(v_, (list, tuple)) and v_:
+                    v_ = v_[0].v if isinstance(v_[0], PyVal) else v_[0]
+                if isinstance(v_, str):
+                    cols[gas_].add(v_)
         return cols
 
     n_pairs = 0
@@ -463,13 +501,20 @@ UNIT = {"_mm": ("div", 1000), "_km": ("mul", 1000)}
 def r2_7(run):
     ix = run.index
     n = 0
-    for c in ix.all_classes():
-        for mname in ("create_pit_branch_entries", "create_pit_node_entries"):
-            m = c.methods.get(mname)
-            if not m:
-                continue
-            par = parents(m.node)
-            for a in ast.walk(m.node):
+    # every function of the component-model package that reads a millimetre / kilometre column (the pit-filling hooks and
+    # whatever helpers they delegate to), in the tree as written (helper substitution would only duplicate the sites)
+    class _NoCls:
+        name = "-"
+    for m in ix.all_functions():
+        if not m.module.startswith("pandapipes.component_models"):
+            continue
+        c = m.cls if m.cls is not None else _NoCls
+        mname = m.name
+        if mname in ("get_component_input", "get_result_table", "extract_results", "get_internal_results"):
+            continue        # declarations and result reporting (results are converted back explicitly, checked elsewhere)
+        if True:
+            par = parents(m.raw_node)
+            for a in ast.walk(m.raw_node):
                 if not (isinstance(a, ast.Attribute) and any(a.attr.endswith(s) for s in UNIT)):
                     continue
                 suffix = "_mm" if a.attr.endswith("_mm") else "_km"
@@ -490,7 +535,7 @@ def r2_7(run):
                 elif isinstance(p, ast.Assign) and isinstance(p.targets[0], ast.Name):
                     # alias: every use that flows into the pit must carry the factor
                     nm = p.targets[0].id
-                    uses = [x for x in ast.walk(m.node) if isinstance(x, ast.Name) and x.id == nm and isinstance(x.ctx, ast.Load)]
+                    uses = [x for x in ast.walk(m.raw_node) if isinstance(x, ast.Name) and x.id == nm and isinstance(x.ctx, ast.Load)]
                     flows = []
                     for u in uses:
                         q = par.get(u)
